@@ -18,6 +18,9 @@ THEOREMS = [_NS + t for t in (
     "print_scan_roundtrip_nocompress", "message_roundtrip_nocompress", "array_roundtrip_nocompress",
     # tier 3, range compression, for lists that are one run: nxA and a [b] ... z
     "range_roundtrip_const", "range_roundtrip_int",
+    # tier 3, range compression in context: constant runs of any scalar type and int32 arithmetic runs among
+    # uncompressed scalar values, in any number and order (the cell-level theorem and the statement-level one)
+    "runs_roundtrip_cells", "print_scan_roundtrip_runs_partial",
     # the model is written over the constants/tables extracted from the source on every run
     "tables_agree", "escape_tables_inverse")]
 HARNESS = {"src": ["pretty.cpp"]}
@@ -65,12 +68,22 @@ ASSUMPTIONS = [
     "float-representable fraction the oracle demands the printed precision (scanned and original less than one unit "
     "of the last printed digit + 2^-23 s apart, seconds included), which is weaker than the statement's 'exactly' "
     "and the most a text without the exact value can give (fixes C10-16, C10-17 were found this way)",
-    "range compression is proved for lists that consist of exactly one run: n >= 5 copies of any scalar (nxA), or an int32 "
-    "arithmetic run with any step (a ... z / a b ... z) that stays inside int32 incl. the step behind its last element "
-    "and is not wider than 2^31-1",
-    "NOT proved, covered by correspondence + round-trip oracle only: compressed runs inside longer lists and inside "
-    "arrays, arithmetic runs of 'h' 'c' 'T' 'F' values, runs of arrays, nested arrays, a midnight time tag anywhere "
-    "but at the end of the text, time fractions without lossless mode",
+    "range compression is proved (print_scan_roundtrip_runs_partial) for every list of scalar values in which compressed "
+    "runs stand among uncompressed values — before, between and behind them, any number of runs in any order, also "
+    "directly adjacent runs: constant runs of n >= 5 copies of any scalar of the domain (nxA), and int32 arithmetic runs "
+    "with any step, printed as 'a ... z' when the step is +-1 and the value in front is of another type or equal to a, "
+    "otherwise as 'a b ... z' (the model's and the code's `confusing` test); the left neighbour the scanner (arg[-1] / "
+    "the last value of a preceding range via arg[-3]) and the checker (llhssrc: token, nxA, or a preceding range) find "
+    "is proved to be the value the printer looked at. Hypotheses (`PrinterSegments`), exactly the printer's side "
+    "conditions: rtosc_convert_to_range called at the start of each segment on the rest of the list returns nothing "
+    "for an uncompressed value, the whole constant run, resp. the whole arithmetic run (so runs are maximal); an "
+    "arithmetic run stays inside int32 incl. the step behind its last element (fix C10-11), is not wider than 2^31-1 "
+    "(fix C10-15), and its count fits an int32_t; compression on. range_roundtrip_const / range_roundtrip_int are the "
+    "special cases of a list that is exactly one run, with the run conditions stated on the values only",
+    "NOT proved, covered by correspondence + round-trip oracle only: compressed runs inside arrays and lists that "
+    "contain arrays next to compressed runs, arithmetic runs of 'h' 'c' 'T' 'F' values, runs of arrays, nested arrays, "
+    "the whole-message form of lists with compressed runs in context, a midnight time tag anywhere but at the end of "
+    "the text, time fractions without lossless mode",
     "the exact printed text is part of the model/implementation comparison (it ties Pretty/Print.lean to the code); a "
     "difference in the text alone, with the round-trip oracle holding, is reported as such (NOTE line, evidence "
     "input_distribution.correspondence_diffs_text_only) and yields `no-failing-input-found`, never a failing input",
@@ -90,15 +103,18 @@ TRUSTED = [
 LEVEL_TEXT = ("Lean theorems: print→check→scan is the identity, with printed length = returned length and the whole text "
               "consumed, for every scalar value (tier 1; floats and doubles bit-exact in lossless mode via exact %a / "
               "strtod models, time tags under the UTC calendar model, fractions in lossless mode), for every list and "
-              "whole message of them that the printer does not compress, at any line length (tier 2), and with "
+              "whole message of them that the printer does not compress, at any line length (tier 2), with "
               "compression off for lists and messages incl. arrays of scalars (tier 3, partial; a midnight time tag "
-              "only as the last value, array tag = type of the last element); range compression is proved for "
-              "lists that are exactly one run (nxA of any scalar, int32 arithmetic runs) and otherwise — runs inside "
-              "longer lists or arrays, 'h'/'c'/boolean arithmetic runs, runs of arrays, time fractions without "
-              "lossless mode — checked by exact model/implementation correspondence and by the round-trip oracle "
-              "evaluated on the implementation, not proved")
-LEVEL_NOTE = ("partial: range compression beyond single-run lists, and time fractions without lossless mode, are "
-              "correspondence + oracle only")
+              "only as the last value, array tag = type of the last element), and with compression on for every list "
+              "of scalars in which constant runs of any scalar type (nxA) and int32 arithmetic runs (a ... z / "
+              "a b ... z) stand among uncompressed values in any number and order, under exactly the printer's side "
+              "conditions (rtosc_convert_to_range finds these runs; overflow and width guards), the scanned ranges "
+              "being compared by their expansion (tier 3, print_scan_roundtrip_runs_partial); the rest — runs inside "
+              "arrays or next to arrays, 'h'/'c'/boolean arithmetic runs, runs of arrays, whole messages with runs "
+              "in context, time fractions without lossless mode — is checked by exact model/implementation "
+              "correspondence and by the round-trip oracle evaluated on the implementation, not proved")
+LEVEL_NOTE = ("partial: range compression inside or next to arrays, arithmetic runs of types other than int32, runs of "
+              "arrays, and time fractions without lossless mode, are correspondence + oracle only")
 
 
 
